@@ -79,6 +79,7 @@ func (txn *Txn) rangeWrite(fn func(commitID uint64, chunk commit.Chunk, fill bit
 	lock := txn.owner.slock
 	txn.dirty.Range(func(x uint32) {
 		chunk := commit.Chunk(x)
+		verifYield("w:pre")
 		lock.Lock(uint(chunk))
 		commitID := commit.Next() // drawn under the latch, so that IDs are ordered per chunk
 
@@ -91,5 +92,6 @@ func (txn *Txn) rangeWrite(fn func(commitID uint64, chunk commit.Chunk, fill bit
 		// Call the delegate
 		fn(commitID, chunk, fill)
 		lock.Unlock(uint(chunk))
+		verifYield("w:post")
 	})
 }
